@@ -34,7 +34,7 @@ def bounds(tier):
     return dict(value_level="all secrets of length 1..%d over the secret alphabet; shaped $1$ (salt 1..4), $6$, $9$ inputs with symbolic bodies" % (4 if tier == "quick" else 6),
                 line_level="generated line forms (%s), secret slot of %s symbolic characters, trailing context %r" % (
                     "base form of every pattern + seed-sampled variants" if tier == "quick" else "all each-choice forms of every pattern + harvested test templates",
-                    "2" if tier == "quick" else "1..4", SUFFIXES))
+                    "2" if tier == "quick" else "2 (all forms), 1..3 (base forms), 4 (base forms of the first 36 patterns)", SUFFIXES))
 
 
 def items(tier, seed):
@@ -70,13 +70,19 @@ def items(tier, seed):
                 out.append(Item("C07", "hashctx", dict(form=idx, kw=kw, kind=kind, nsym=2 if tier == "quick" else 4), budget_s=400 if tier == "quick" else 2400,
                                 obligation="H4-hash-token-in-foreign-context"))
     if tier != "quick":
+        bases = set(base.values())
         for idx in range(len(fs)):
-            for n in (1, 2, 3, 4):
-                out.append(Item("C07", "line", dict(form=idx, n=n, suffix=0), budget_s=1800, obligation="H2-line-level"))
-            for sfx in (1, 2):
-                out.append(Item("C07", "line", dict(form=idx, n=2, suffix=sfx), budget_s=1800, obligation="H3-trailing-context"))
+            ns = (1, 2, 3) if idx in bases else (2,)
+            for n in ns:
+                out.append(Item("C07", "line", dict(form=idx, n=n, suffix=0), budget_s=2400, obligation="H2-line-level"))
+            if idx in bases:
+                for sfx in (1, 2):
+                    out.append(Item("C07", "line", dict(form=idx, n=2, suffix=sfx), budget_s=2400, obligation="H3-trailing-context"))
+        for idx in sorted(bases):
+            if fs[idx].pat_index < 36:
+                out.append(Item("C07", "line", dict(form=idx, n=4, suffix=0), budget_s=3000, obligation="H2-line-level"))
         for hi in range(len(hv)):
-            out.append(Item("C07", "line", dict(harvested=hi, n=3, suffix=0), budget_s=1800, obligation="H2-line-level"))
+            out.append(Item("C07", "line", dict(harvested=hi, n=2, suffix=0), budget_s=2400, obligation="H2-line-level"))
     return out
 
 
